@@ -107,10 +107,14 @@ fn cfgs() -> Vec<(&'static str, bool, u32, u32)> {
 pub const LAYW: usize = 97;
 /// the same codes as a LAYW-wide multi-row 4:4:4 frame whose three planes have different paddings (hence different strides
 /// and origins); the tail of the last row is filled with mid-grey
-pub fn yuv444_rows<T: Pixel>(codes: &[[u32; 3]], cfg: YuvConfig, equal: bool) -> Yuv<T> {
-    let w = LAYW; let h = (codes.len() + w - 1) / w; let mid = 1u32 << (cfg.bit_depth - 1);
-    // `equal`: the three planes share one (padded) layout, stride != width; otherwise each plane has its own
-    let pads = if equal { [(0usize, 0usize); 3] } else { [(0usize, 0usize), (16, 3), (40, 1)] };
+/// layout modes: 1 = 97 wide, a different padding per plane; 2 = 97 wide, one shared padded layout (stride != width);
+/// 3 = a single column (chroma planes one sample wide, many rows); 4 = 64 wide, no horizontal padding (stride == width) but
+/// rows of vertical padding above the picture
+pub fn lay_width(mode: u8) -> usize { match mode { 3 => 1, 4 => 64, _ => LAYW } }
+
+pub fn yuv444_mode<T: Pixel>(codes: &[[u32; 3]], cfg: YuvConfig, mode: u8) -> Yuv<T> {
+    let w = lay_width(mode); let h = (codes.len() + w - 1) / w; let mid = 1u32 << (cfg.bit_depth - 1);
+    let pads = match mode { 2 | 3 => [(0usize, 0usize); 3], 4 => [(0usize, 3usize), (0, 3), (0, 3)], _ => [(0usize, 0usize), (16, 3), (40, 1)] };
     let mk = |pi: usize| { let mut p: Plane<T> = Plane::new(w, h, 0, 0, pads[pi].0, pads[pi].1);
         for s in p.data.iter_mut() { *s = T::cast_from(77u16); }
         let stride = p.cfg.stride; let o = p.data_origin_mut();
@@ -123,7 +127,7 @@ pub fn codes_of_rows<T: Pixel>(y: &Yuv<T>, n: usize) -> Vec<[u32; 3]> {
 }
 
 fn with_yuv<R>(ts: u32, rows: u8, codes: &[[u32; 3]], cfg: YuvConfig, f8: impl FnOnce(&Yuv<u8>) -> R, f16: impl FnOnce(&Yuv<u16>) -> R) -> R {
-    if rows > 0 { if ts == 1 { f8(&yuv444_rows::<u8>(codes, cfg, rows == 2)) } else { f16(&yuv444_rows::<u16>(codes, cfg, rows == 2)) } }
+    if rows > 0 { if ts == 1 { f8(&yuv444_mode::<u8>(codes, cfg, rows)) } else { f16(&yuv444_mode::<u16>(codes, cfg, rows)) } }
     else if ts == 1 { f8(&yuv444::<u8>(codes, cfg)) } else { f16(&yuv444::<u16>(codes, cfg)) }
 }
 
@@ -149,11 +153,13 @@ pub fn c01_c08_c16(prop: &str, seed: u64, budget: usize) -> Report {
         for (chi, chunk) in codes.chunks(1 << 16).enumerate() {
             // every other chunk is laid out as a multi-row frame with per-plane paddings (the properties are per pixel, so the
             // layout must not matter)
-            // (0: one row; 1: multi-row, a different padding per plane; 2: multi-row, one shared padded layout)
-            let rows: u8 = ((chi + ci) % 3) as u8;
+            // (0: one row; 1..4: the multi-row layouts of `yuv444_mode`)
+            let rows: u8 = ((chi + ci) % 5) as u8;
+            // a single column cannot hold a whole chunk in reasonable time for the generic code path: it only gets a prefix
+            let chunk: &[[u32; 3]] = if rows == 3 { &chunk[..chunk.len().min(4096)] } else { chunk };
             let mut rgb: Vec<[f32; 3]> = with_yuv(ts, rows, chunk, cfg, |y| Rgb::try_from(y).unwrap().into_data(), |y| Rgb::try_from(y).unwrap().into_data());
             let lay = |i: usize| if rows > 0 { format!(" L{} {}", rows, i) } else { String::new() };
-            let (rw, rh) = if rows > 0 { (LAYW, rgb.len() / LAYW) } else { (chunk.len(), 1) };
+            let (rw, rh) = if rows > 0 { (lay_width(rows), rgb.len() / lay_width(rows)) } else { (chunk.len(), 1) };
             let rgb_full = rgb.clone(); rgb.truncate(chunk.len());
             rep.evaluated += chunk.len() as u64;
             if prop == "C01" {
